@@ -4,6 +4,7 @@ import Orx.GenThms.Slice
 import Orx.GenThms.Vec
 import Orx.GenThms.Arr
 import Orx.IW.FullLedgerRun
+import Orx.GenThms.ProtoSim
 /-! # C03 Chunk contract: non-empty, bounded, consecutive, exact length -/
 namespace Orx.Props.C03
 open Orx Orx.KS
@@ -100,5 +101,24 @@ theorem buffered_chunk_over_reused_buffer (s : IWF.ISrc) (hown : s.owning = true
     (hpc : ((IWF.run s σ (IWF.init progs)).core.th t).pc = .pub (.buffered m lp) b acc) :
     ∃ l, IWF.actBuf ((IWF.run s σ (IWF.init progs)).d t) lp = some l ∧ l.length = m ∧ l.take acc.length = acc.map some :=
   IWF.buffered_chunk_is_what_was_pulled s hown n progs σ hσ hb t m b lp acc hd hpc
+
+
+/-- **`next_chunk` of the wrapper as in the source** (translated `fetch_n`): the chunk returned is exactly the values
+polled under the thread's ticket, with the ticket's begin as `begin_idx`; an empty buffer is the end; the publication adds
+the *requested* size to `yielded`. -/
+theorem source_chunk_is_what_was_polled (n b : Nat) (acc : List Nat) :
+    GenThms.Proto.child (GenThms.Proto.sPub n b acc) (.nat b) =
+      some (.ret (match acc with | [] => .fin | v :: rest => .chunk b (v :: rest))) ∧
+    GenThms.Proto.head (GenThms.Proto.sPub n b acc) = some (.faa .Y .acqrel n) := by
+  constructor
+  · cases acc <;> simp [GenThms.Proto.sPub, GenThms.Proto.child]
+  · rfl
+
+/-- the number of polls of one `fetch_n` is bounded by the requested size (`begin..begin.saturating_add(n)`) -/
+theorem source_chunk_polls_bounded (n b : Nat) : satAdd b n - b ≤ n := GenThms.Proto.iters_le_chunk n b
+
+theorem source_requests_are_the_translated_functions (k : Nat) :
+    (∀ n, 1 ≤ n → GenThms.Proto.reqTree k (.chunk n) = GenThms.Proto.treeAt k (.resv (.chunk n))) :=
+  GenThms.Proto.reqTree_chunk k
 
 end Orx.Props.C03
